@@ -11,6 +11,13 @@ QS=$(grep -E '^-Q' $V/coq/_CoqProject | awk -v d=$V/coq '{print "-Q " d "/" $2 "
 if [ ! -f driver ] || [ -n "$(find $V/coq $V/ocaml/driver.ml -newer driver \( -name '*.vo' -o -name 'driver.ml' \) 2>/dev/null | head -1)" ]; then
   timeout 600 coqc $QS -o "$B/Extract.vo" $V/coq/$P/Extract.v > extract.log 2>&1 || { cat extract.log; exit 1; }
   cp ${p}_model.ml model.ml
+  # monolithic extraction renames a requested function when a dependency has the same base name
+  # (e.g. V.Mgr.Glue.run_case under V.C05.Glue.run_case): the driver must see the requested one,
+  # which is the last definition of that name
+  for f in run_case prop_ok known_class; do
+    last=$(grep -oE "^(let|and) (rec )?${f}[0-9]* " model.ml | awk '{print $NF}' | tail -1)
+    if [ -n "$last" ] && [ "$last" != "$f" ]; then echo "let $f = $last" >> model.ml; fi
+  done
   rm -f model.mli ${p}_model.mli
   cp $V/ocaml/driver.ml driver.ml
   timeout 600 ocamlfind ocamlopt -O3 -w -a model.ml driver.ml -o driver 2>build.log || timeout 600 ocamlfind ocamlopt -w -a model.ml driver.ml -o driver 2>build.log || { cat build.log; exit 1; }
